@@ -20,8 +20,8 @@ RULE = ("forecast sets with n in 2..40 forecasts, m in 1..12 members, values on 
         "rejected inputs. Non-trivial: dscore strictly between 0 and 1 / sample "
         "size >= 2; distinct by digest of the inputs.")
 ASSUMPTIONS = [
-    "values are exactly tied or at least 0.0587 apart (after any of the maps), far "
-    "above the kernel's tie tolerances",
+    "forecast values are exactly tied or at least 2.3e-5 apart (after any of the "
+    "maps applied to them), above the kernel's tie tolerance of 1e-6",
     "PIT strict monotonicity is judged between forecasts of the same ensemble size "
     "whose observation is not tied with a member",
     "p-values and PIT values may leave [0, 1] by at most 1e-12 (rounding: scipy's "
@@ -30,7 +30,7 @@ ASSUMPTIONS = [
 ]
 OBLIGATIONS = {"dscore:m=1": 20, "dscore:m>=2": 50, "dscore:perfect": 20,
                "dscore:inverse": 20, "dscore:heavy-ties": 20,
-               "dscore:identical-ens": 10, "ensrank:ref": 50, "pit:random": 30,
+               "dscore:identical-ens": 10, "dscore:wide-range": 20, "ad:near-duplicates": 10, "ensrank:ref": 50, "pit:random": 30,
                "pit:plain": 30, "pit:sudo": 30, "cvm": 50, "ad": 50, "ad:reject": 30,
                "alpha": 20, "n=1-sample": 5}
 
@@ -84,7 +84,7 @@ def ensrank_ref(sim):
 # ---------------------------------------------------------------- generator ----
 def gen_forecasts(rng, it, tier):
     kinds = ["random", "heavy", "identical", "perfect", "inverse", "m1", "random",
-             "perfect-ens", "inverse-ens"]
+             "perfect-ens", "inverse-ens", "wide", "perfect", "inverse"]
     kind = kinds[it % len(kinds)]
     n = int(rng.integers(2, 41 if tier == "thorough" else 25))
     m = int(rng.integers(1, 13))
@@ -92,7 +92,21 @@ def gen_forecasts(rng, it, tier):
     if kind == "m1":
         m = 1
     lat = np.arange(-6, 7) / 2.0    # -3..3 step 0.5
-    if kind == "random":
+    # wide dynamic range: gaps of 1/1024 (1000 x the tie tolerance) next to values
+    # of several thousands
+    wide = np.sort(np.concatenate([np.arange(-3, 4) / 1024.0,
+                                   1024.0 * np.arange(1, 4), -1024.0 * np.arange(1, 4)]))
+    usewide = kind == "wide" or (kind in ("perfect", "inverse") and (it // len(kinds)) % 2)
+    if usewide:
+        tags.append("dscore:wide-range")
+    if kind == "wide":
+        sim = rng.choice(wide, size=(n, m))
+        obs = rng.choice(wide, size=n)
+        # every set holds both scales
+        sim[0, 0] = wide[-1]
+        sim[-1, -1] = wide[6]
+        kind = "random"
+    elif kind == "random":
         sim = rng.choice(lat, size=(n, m))
         obs = rng.choice(lat, size=n)
     elif kind == "heavy":
@@ -116,6 +130,8 @@ def gen_forecasts(rng, it, tier):
         elif kind == "m1" and rng.random() < 0.5:
             sim = rng.choice(lat, size=(n, 1))
             kind = "random"
+        elif usewide:
+            sim = np.repeat(wide[order][:, None], m, axis=1)
         else:
             sim = np.repeat((order * 0.5 - 3.0)[:, None], m, axis=1)
         if kind.startswith("inverse"):
@@ -124,8 +140,11 @@ def gen_forecasts(rng, it, tier):
         elif kind != "random":
             tags.append("dscore:perfect")
     tags.append("dscore:m=1" if m == 1 else "dscore:m>=2")
-    return {"kind": "dscore", "gen": kind, "obs": obs.astype(float),
+    case = {"kind": "dscore", "gen": kind, "obs": obs.astype(float),
             "sim": sim.astype(float), "tags": tags}
+    if usewide:
+        case["maps"] = ["arctan", "cubic", "affine", "affine2"]   # exp would overflow
+    return case
 
 
 def call(fn, *a, **k):
@@ -185,6 +204,8 @@ def run_dscore_case(ctx, case, rng=None):
         ctx.nontrivial("ds", obs, sim)
     # monotone re-scalings of the observations / of all forecast values
     for nm, f in MAPS.items():
+        if nm not in case.get("maps", MAPS):
+            continue
         Do = call(m_.dscore, f(obs), sim)
         Ds = call(m_.dscore, obs, f(sim))
         ctx.api("dscore", 2)
@@ -269,6 +290,8 @@ def run_unif_case(ctx, case):
     if n == 1:
         ctx.tag("n=1-sample")
     perm = np.asarray(case["perm"], dtype=int)
+    if case.get("near"):
+        ctx.tag("ad:near-duplicates")
     # Cramer - von Mises
     ctx.tag("cvm")
     ctx.api("cramer_von_mises_test")
@@ -372,7 +395,21 @@ def run(ctx):
         else:
             u = rng.beta(5, 1, size=nn)
         u = np.clip(u, 1e-12, 1 - 1e-12)
-        run_unif_case(ctx, {"kind": "unif", "u": u, "perm": rng.permutation(nn)})
+        near = False
+        if it % 5 == 1 and nn >= 2:
+            # distinct values closer than any tolerance, in both orders, incl. next to
+            # the ends of the interval
+            near = True
+            for _ in range(int(rng.integers(1, 4))):
+                i, j = rng.choice(nn, size=2, replace=False)
+                u[j] = u[i] + float(rng.choice([1e-9, -1e-9, 3e-11, -2e-10]))
+            if nn >= 4:
+                a, b, c, d = rng.choice(nn, size=4, replace=False)
+                u[a], u[b] = 7e-9, 2e-9
+                u[c], u[d] = 1 - 6e-9, 1 - 1e-9
+            u = np.clip(u, 1e-12, 1 - 1e-12)
+        run_unif_case(ctx, {"kind": "unif", "u": u, "perm": rng.permutation(nn),
+                            "near": near})
         # rejection
         bad = u.copy()
         j = int(rng.integers(0, nn))
